@@ -401,6 +401,29 @@ def _is_temp(name: str) -> bool:
     return re.search(r"__[ig]\d+$", name) is not None
 
 
+_KNOWN_LOCALS = None
+
+
+def new_local_predicate(fn):
+    """name -> bool: the name is an inliner temporary, or a local of `fn` that the revision the rules were written against does
+    not have (sa/known_locals.json): a variable somebody introduced later. Functions the inventory does not list have no such names."""
+    global _KNOWN_LOCALS
+    if _KNOWN_LOCALS is None:
+        import json
+        import os
+        with open(os.path.join(os.path.dirname(os.path.abspath(__file__)), "known_locals.json")) as f:
+            _KNOWN_LOCALS = json.load(f)["locals"]
+    try:
+        from .core import qualname_of
+        known = _KNOWN_LOCALS.get(qualname_of(fn))
+    except Exception:
+        known = None
+    if known is None:
+        return _is_temp
+    known = set(known)
+    return lambda name: _is_temp(name) or name not in known
+
+
 def coalesce_copies(fn) -> int:
     """In/out copies left by inlining a helper that rebinds its parameter and hands it back:
 
@@ -410,6 +433,7 @@ def coalesce_copies(fn) -> int:
     of `a` in between, (3) afterwards t is never stored again and every read of t precedes (in document order, and not across a
     loop's back edge) the next store to `a`. Under these conditions t and a hold the same object wherever t is read."""
     done = 0
+    is_new = new_local_predicate(fn)
     for _ in range(8):
         changed = False
         params = {a.arg for a in fn.args.args + fn.args.kwonlyargs + fn.args.posonlyargs} | ({fn.args.vararg.arg} if fn.args.vararg else set()) | ({fn.args.kwarg.arg} if fn.args.kwarg else set())
@@ -424,7 +448,7 @@ def coalesce_copies(fn) -> int:
                         continue
                     t, a = st.targets[0].id, st.value.id
                     # result copy:  t = E (or `t, u = E`) ; a = t   with t an inliner temporary read only here  ->  a = E
-                    if _is_temp(a) and a not in params and not _is_temp(t):
+                    if is_new(a) and a not in params and not is_new(t):
                         tmp, dest = a, t
                         occ = [n for n in own if isinstance(n, ast.Name) and n.id == tmp]
                         stores = [n for n in occ if isinstance(n.ctx, ast.Store)]
@@ -441,7 +465,7 @@ def coalesce_copies(fn) -> int:
                                 changed = True
                                 done += 1
                                 break
-                    if t == a or t in params or not _is_temp(t):
+                    if t == a or t in params or not is_new(t):
                         continue
                     j = next((k for k in range(i + 1, len(blk)) if isinstance(blk[k], ast.Assign) and len(blk[k].targets) == 1 and isinstance(blk[k].targets[0], ast.Name)
                               and blk[k].targets[0].id == a and isinstance(blk[k].value, ast.Name) and blk[k].value.id == t), None)
@@ -571,12 +595,13 @@ def forward_single_use_temps(fn) -> int:
     follows, where nothing with an effect is evaluated in S before t (every call in S has t among its arguments and a plain
     path as its callee)."""
     n_done = 0
+    is_new = new_local_predicate(fn)
     for _ in range(16):
         changed = False
         own = list(_own_nodes(fn))
         counts = {}
         for n in own:
-            if isinstance(n, ast.Name) and _is_temp(n.id):
+            if isinstance(n, ast.Name) and is_new(n.id):
                 counts.setdefault(n.id, []).append(n)
         for blk_owner in [fn] + own:
             for attr in ("body", "orelse", "finalbody"):
@@ -585,9 +610,11 @@ def forward_single_use_temps(fn) -> int:
                     continue
                 for i in range(len(blk) - 1):
                     st, nxt = blk[i], blk[i + 1]
-                    if not (isinstance(st, ast.Assign) and len(st.targets) == 1 and isinstance(st.targets[0], ast.Name) and _is_temp(st.targets[0].id)):
+                    if not (isinstance(st, ast.Assign) and len(st.targets) == 1 and isinstance(st.targets[0], ast.Name) and is_new(st.targets[0].id)):
                         continue
                     t = st.targets[0].id
+                    if any(isinstance(x, ast.Name) and x.id == t for sc in _nested_scopes(fn) for x in ast.walk(sc)):
+                        continue
                     occ = counts.get(t, [])
                     if len(occ) != 2 or not isinstance(nxt, (ast.Expr, ast.Assign, ast.Return, ast.AugAssign)):
                         continue
@@ -610,6 +637,18 @@ def forward_single_use_temps(fn) -> int:
                     if not ok:
                         continue
                     par = load._parent
+                    if isinstance(par, ast.Starred):
+                        # f(*t) with t = (a, b, c)  ->  f(a, b, c)
+                        call = getattr(par, "_parent", None)
+                        if not (isinstance(call, ast.Call) and isinstance(st.value, (ast.Tuple, ast.List)) and not any(isinstance(e, ast.Starred) for e in st.value.elts)
+                                and any(a is par for a in call.args)):
+                            continue
+                        k = next(k for k, a in enumerate(call.args) if a is par)
+                        call.args[k:k + 1] = list(st.value.elts)
+                        del blk[i]
+                        changed = True
+                        n_done += 1
+                        break
                     for f, v in ast.iter_fields(par):
                         if v is load:
                             setattr(par, f, st.value)
